@@ -14,8 +14,8 @@ type GzipReader struct {
 	zerr error         // sticky error
 }
 
-func NewGzipReader(body io.ReadCloser) *GzipReader {
-	return &GzipReader{Body: body}
+func NewGzipReader(body io.ReadCloser) CompressReader {
+	return withMessageEnd(&GzipReader{Body: body})
 }
 
 func (gz *GzipReader) Read(p []byte) (n int, err error) {
